@@ -18,12 +18,24 @@
 From Avfs Require Import Base PathModel PathSpec PathProofs PathCleanProofs PathIterProofs MemFS.
 
 (* ---- reachability by child edges ------------------------------------------------ *)
+(* an edge is an entry (name, c) of the children map of a directory - ANY entry, also one
+   shadowed by an earlier entry of the same name in a malformed map *)
 Inductive reach (h : heap) (r : nat) : nat -> Prop :=
 | reach_root : reach h r r
-| reach_child x nm c : reach h r x -> alookup str_eqb nm (children h x) = Some c -> reach h r c.
+| reach_edge x nm c : reach h r x -> In (nm, c) (children h x) -> reach h r c.
+
+Lemma alookup_In (nm : str) (l : list (str * nat)) (c : nat) : alookup str_eqb nm l = Some c -> In (nm, c) l.
+Proof.
+  induction l as [|[k x] l IH]; cbn [alookup]; [discriminate|].
+  destruct (str_eqb_spec nm k) as [->|_]; [intros [= ->]; left; reflexivity|intros H; right; auto].
+Qed.
+
+(* the entries the walk looks up are edges *)
+Lemma reach_child h r x nm c : reach h r x -> alookup str_eqb nm (children h x) = Some c -> reach h r c.
+Proof. intros Hx Hl. eapply reach_edge; [exact Hx|apply alookup_In; exact Hl]. Qed.
 
 Lemma reach_trans h a b c : reach h a b -> reach h b c -> reach h a c.
-Proof. intros Hab Hbc. induction Hbc; [exact Hab|]. eapply reach_child; eauto. Qed.
+Proof. intros Hab Hbc. induction Hbc; [exact Hab|]. eapply reach_edge; eauto. Qed.
 
 Definition confined (h : heap) (root : nat) (r : sres) : Prop :=
   (forall x, sr_parent r = Some x -> reach h root x) /\ (forall c, sr_child r = Some c -> reach h root c).
